@@ -474,6 +474,14 @@ class SpaceTranslator(ParentTranslator):
             if k[0] != '_':
                 lines.append(k + ' = None')
 
+        # Parameters of the space and of its parents are names as well
+        parent = space
+        while isinstance(parent, BaseSpace):
+            if parent.formula:
+                for k in parent.parameters:
+                    lines.append(k + ' = None')
+            parent = parent.parent
+
         for k, v in space.cells.items():
             src = v.formula.source
             if is_lambda_expr(src):
